@@ -684,7 +684,15 @@ def run_c20_registry(case):
         for step, op in enumerate(case['prog'], 1):
             k = op[0]
             if k == 'system':
-                systems.append((lib.System(), []))
+                if len(op) > 1 and op[1] == 'sub':
+                    # a user's own kind of System (with a reporting helper, say) is a System like any other
+                    class PlantSystem(lib.System):
+                        def report(self):
+                            return len(self._assets)
+                    systems.append((PlantSystem(), []))
+                    stats['reach']['system_subclass'] = stats['reach'].get('system_subclass', 0) + 1
+                else:
+                    systems.append((lib.System(), []))
             elif k == 'asset':
                 if not systems:
                     continue
@@ -845,7 +853,7 @@ def run_c20_registry(case):
 
 
 def gen_c20_registry(rng, late_kinds=ASSET_KINDS):
-    prog = [['system']]
+    prog = [['system'] + rng.choice(([], [], [], ['sub']))]
     names = ['n0', 'n1', 'n2', 'dup', 'dup']
     made = []
     n_sys = 1
@@ -867,7 +875,7 @@ def gen_c20_registry(rng, late_kinds=ASSET_KINDS):
             if si == n_sys - 1:
                 running = True
         elif x < 0.76:
-            prog.append(['system'])
+            prog.append(['system'] + rng.choice(([], [], [], ['sub'])))
             n_sys += 1
             made = []
             running = False
